@@ -21,7 +21,7 @@
    Gen_MemPoolConst.CorrectBlockSize (MemPool.h:43-49), regenerated from /repo on every run. *)
 From Coq Require Import ZArith List Bool Arith Lia.
 From MomoCommon Require Import GenPrelude.
-From C20 Require Gen_UIntMath Gen_MemPoolConst Gen_MemPool.
+From C20 Require Gen_UIntMath Gen_MemPoolConst Gen_MemPool Gen_PoolAllocator.
 Import ListNotations.
 Local Open Scope Z_scope.
 
@@ -121,7 +121,8 @@ Inductive op :=
 | OpAllocFail (h : nat) (n : Z) (grow : nat)         (* allocate in which the base allocator throws after the pool
                                                         obtained [grow] buffers *)
 | OpElem (h : nat)                                   (* construct / destroy (137-148): element life time only *)
-| OpQuery (h1 h2 : nat).                             (* operator== / != (150-160), get_base_allocator (101): read only *)
+| OpQuery (h1 h2 : nat)                              (* operator== / != (150-160), get_base_allocator (101): read only *)
+| OpSoccFail (h : nat).                              (* select_on_container_copy_construction in which allocate_shared throws *)
 
 (* shared_ptr release: the last owner destroys the MemPool.  ~MemPool (MemPool.h:228-235) has
    MOMO_EXTRA_CHECK(allocCount == 0) and then returns every buffer; the control block obtained by
@@ -170,6 +171,20 @@ Definition dealloc_decision (vt : vtype) (P : pool) (n : Z) : ddec :=
 
 (* operator== (150-154): two allocators are equal iff they share the pool *)
 Definition alloc_eq (st : state) (h1 h2 : nat) : bool := Nat.eqb (hpool (handles st h1)) (hpool (handles st h2)).
+
+(* the pool side of a pooled allocate / deallocate on (GetAllocateCount, mCachedCount): what MemPool::Allocate (281-303) and
+   MemPool::Deallocate (305-323) do to these two fields; proved equal to the cxx2coq-GENERATED Gen_MemPoolOps.Allocate /
+   Deallocate / pvFlushDeallocate (PoolAllocProofs: gen_pool_Allocate_refines, gen_pool_Deallocate_refines) and to what
+   [step] does (step_alloc_pool_counts, step_dealloc_pool_counts) *)
+Definition pool_allocate_counts (P : pool) (c : nat) : nat * nat :=
+  (S (pcount P), if use_cache P && negb (Nat.eqb c 0) then pred c else c).
+Definition pool_deallocate_counts (P : pool) (c : nat) : option (nat * nat) :=
+  match pcount P with
+  | O => None                                         (* MOMO_ASSERT(allocCount > 0) *)
+  | S k => Some (k, if use_cache P
+                    then S (if Z.leb (cached_free_block_count cfg) (Z.of_nat c) then O else c)
+                    else c)
+  end.
 
 Definition new_pool (vt : vtype) : pool := mkPool (get_params vt) 0 1 0 true.
 
@@ -288,6 +303,12 @@ Definition step (st : state) (o : op) : outcome (state * obs) :=
       else nothing
   | OpElem h => Ok (st, mkObs None None (hpool (handles st h)) 0 0 false)
   | OpQuery h1 h2 => Ok (st, mkObs None None (hpool (handles st h1)) 0 0 false)
+  | OpSoccFail h =>
+      (* the base allocator throws while the new pool is created (106-109): nothing exists yet, nothing changes.  The
+         exception can only reach the caller if the function is not noexcept - the flag is GENERATED from the declaration
+         (Gen_PoolAllocator.select_on_container_copy_construction_noexcept; /repo fix f8cb4ff); otherwise std::terminate. *)
+      if Gen_PoolAllocator.select_on_container_copy_construction_noexcept then Stuck
+      else Ok (st, mkObs None None (hpool (handles st h)) 0 0 false)
   end.
 
 Fixpoint run (st : state) (ops : list op) : outcome (state * list obs) :=
@@ -344,6 +365,7 @@ Definition proto_ok (st : state) (o : op) : bool :=
       let B := blocks st b in
       handle_ok st h && Nat.ltb b (nblocks st) && balive B &&
       Nat.eqb (bpool B) (hpool (handles st h)) && vt_eqb (bvt B) (hvt (handles st h)) && (bn B =? n)
+  | OpSoccFail h => handle_ok st h
   | OpElem h => handle_ok st h
   | OpQuery h1 h2 => handle_ok st h1 && handle_ok st h2
   | OpAllocFail h n grow =>
